@@ -275,6 +275,74 @@ def extract_ack_loop(src):
     return res, point_ack
 
 
+STMT_HOOK = re.compile(r'#\[cfg\(feature = "verif"\)\]\s*crate::database::sqlite_database::verif_faults::stmt\(conn, (\d+)\)\?;')
+
+
+def fn_body(src, header_rx):
+    m = re.search(header_rx, src)
+    if not m:
+        raise Refuse("function not found: %s" % header_rx)
+    o = src.index("{", m.end())
+    return src[o + 1:block_at(src, o) - 1]
+
+
+def stmt_steps(body, what):
+    """a function body made of `X?;` statements, `for .. { .. }` loops of fallible statements, H4b points and a
+    final Ok(()) -> (site, [1 = statement, 2 = loop, 0 = point])"""
+    steps, sites = [], set()
+    i, n = 0, len(body)
+    while i < n:
+        rest = body[i:]
+        if rest.strip() == "" or re.match(r"\s*Ok\(\(\)\)\s*$", rest):
+            break
+        m = STMT_HOOK.match(rest.lstrip())
+        if m:
+            steps.append(0)
+            sites.add(int(m.group(1)))
+            i += len(rest) - len(rest.lstrip()) + m.end()
+            continue
+        m = re.match(r"\s*for [^{]+\{", rest)
+        if m:
+            e = block_at(rest, m.end() - 1)
+            inner = rest[m.end():e - 1]
+            if "?" not in inner:
+                raise Refuse("%s: loop without fallible statement" % what)
+            steps.append(2)
+            i += e
+            continue
+        m = re.match(r"\s*[^;{}]+\?;", rest)
+        if m:
+            steps.append(1)
+            i += m.end()
+            continue
+        raise Refuse("%s: statement not recognised near %r" % (what, rest.strip()[:80]))
+    return steps, sites
+
+
+def extract_stmts(repo):
+    rd = lambda f: strip_comments(open(os.path.join(repo, "src/database", f)).read())
+    mq, dl, au, gd = rd("mutation_query.rs"), rd("deletion.rs"), rd("authorisation_service.rs"), rd("graph_database.rs")
+    im = re.search(r"impl InsertEntity \{", mq)
+    if not im:
+        raise Refuse("impl InsertEntity not found")
+    table = []
+    for site, body, what in [
+            (1, fn_body(mq[im.end():], r"fn write\(&mut self, conn: &Connection\)"), "InsertEntity::write"),
+            (2, fn_body(dl, r"pub fn delete\(\s*&mut self,\s*conn: &rusqlite::Connection,?\s*\)"), "DeletionQuery::delete"),
+            (4, fn_body(au[au.index("impl Writeable for RoomMutationWriteQuery"):], r"fn write\("), "RoomMutationWriteQuery::write"),
+            (5, fn_body(au[au.index("impl Writeable for RoomMutationStreamWriteQuery"):], r"fn write\("), "RoomMutationStreamWriteQuery::write"),
+            (6, fn_body(au[au.index("impl Writeable for RoomNodeWriteQuery"):], r"fn write\("), "RoomNodeWriteQuery::write")]:
+        steps, found = stmt_steps(body, what)
+        allowed = {1: {1}, 2: {2, 3}, 4: {4, 5}, 5: {4, 5}, 6: {6}}[site]
+        if not found <= allowed:
+            raise Refuse("%s: points of sites %s" % (what, sorted(found)))
+        table.append((site, steps))
+    # start-up: the point directly in front of the recompute request of start()
+    t = norm(gd)
+    start_pt = bool(re.search(r'verif_faults::start_point\(crate::database::sqlite_database::verif_faults::P_START\); database \.writer \.send\(WriteMessage::ComputeDailyLog\(', t))
+    return table, start_pt
+
+
 def main():
     repo, gen = sys.argv[1], sys.argv[2]
     out = os.path.join(gen, "WriterSkeleton.v")
@@ -282,6 +350,8 @@ def main():
         src = strip_comments(open(os.path.join(repo, "src/database/sqlite_database.rs")).read())
         seq, arms, marks_rb, commit_rb, points_top = extract_process_batch_write(src)
         acks, point_ack = extract_ack_loop(src)
+        stmts, start_pt = extract_stmts(repo)
+        start_done = bool(re.search(r'DbMessage::DailyLogComputed\(Ok\(q\)\)\); #\[cfg\(feature = "verif"\)\] verif_faults::start_done\(\);', norm(src)))
     except (Refuse, ValueError, AssertionError) as e:
         if os.path.exists(out):
             os.remove(out)
@@ -307,7 +377,9 @@ def main():
                     (COQ_KIND[k], b(a["fallible"]), b(a["rollback"]), b(a["marks"]), b(a["loop"]), b(a["points"] or not a["fallible"]),
                      ro, b(po), re_, b(pe), a["call"] or "-"))
     lines.append(";\n".join(rows))
-    lines += ["  ] |}.", ""]
+    lines += ["  ];",
+              "  sk_stmts := [%s]%%N;" % "; ".join("(%d, [%s])" % (site, "; ".join(str(x) for x in st)) for site, st in stmts),
+              "  sk_start_points := %s |}." % b(start_pt and start_done), ""]
     txt = "\n".join(lines)
     os.makedirs(gen, exist_ok=True)
     if not os.path.exists(out) or open(out).read() != txt:
